@@ -45,6 +45,7 @@ type Compiler struct {
 	memoryBaseVariable, memoryLenVariable ssa.Variable
 	needMemory                            bool
 	memoryShared                          bool
+	memoryLenNeeds64bit                   bool // the memory can be 65536 pages long: its byte length 1<<32 needs 64 bits.
 	globalVariables                       []ssa.Variable
 	globalVariablesTypes                  []ssa.Type
 	mutableGlobalVariablesIndexes         []wasm.Index // index to ^.
@@ -305,13 +306,22 @@ func (c *Compiler) declareWasmLocals() {
 	}
 }
 
+// memoryCanReach4GiB returns true if a memory of this type can be wasm.MemoryLimitPages (65536) pages long.
+func memoryCanReach4GiB(m *wasm.Memory) bool {
+	return m.Min >= wasm.MemoryLimitPages || m.Max >= wasm.MemoryLimitPages
+}
+
 func (c *Compiler) declareNecessaryVariables() {
+	c.memoryLenNeeds64bit = false
 	if c.needMemory = c.m.MemorySection != nil; c.needMemory {
 		c.memoryShared = c.m.MemorySection.IsShared
+		c.memoryLenNeeds64bit = memoryCanReach4GiB(c.m.MemorySection)
 	} else if c.needMemory = c.m.ImportMemoryCount > 0; c.needMemory {
 		for _, imp := range c.m.ImportSection {
 			if imp.Type == wasm.ExternTypeMemory {
 				c.memoryShared = imp.DescMem.IsShared
+				// The maximum of the imported memory is at most the one declared by the import.
+				c.memoryLenNeeds64bit = memoryCanReach4GiB(imp.DescMem)
 				break
 			}
 		}
